@@ -309,6 +309,12 @@ def family(name, quick=True):
         for (nw, n, r, d, f) in grid:
             out.append(("fanout(nw=%d,n=%d,retry=%s,delay=%s,fail=%d)" % (nw, n, r, d, f),
                         fanout(nw, n, r, d, f, timeout=100), []))
+    elif name == "collect_equal":
+        # a repeated-type expected list filled with EQUAL-VALUED events (three identical votes): each is an event of its own
+        for nw in (1,):           # (overlapping collecting invocations have their own recorded finding)
+            p_ = collector(nw, ("A", "A", "A"), 3)
+            p_["steps"]["a"]["body"] = [{"op": "send", "ty": "A", "n": 3, "same": True}, G, {"op": "none"}]
+            out.append(("collector_equal(nw=%d,AAA,3)" % nw, p_, []))
     elif name == "collect2":
         out.append(("two_buffers(nw=2)", two_buffers(2), []))
     elif name == "equal_events":
